@@ -528,10 +528,27 @@ def run(ctx):
         for fam in FAM:
             for x, y in itertools.permutations(fam, 2):
                 seqs.append([a, x, y])
+    # long histories (beyond the depth bound, not exhaustive over order): everything-happened-before states.
+    #  (a) the whole alphabet in 8 rotations and reversed, run twice in one interpreter - the second pass probes every operation
+    #      after all others; (b) one operation repeated k times, then a probe - counters, growing lists, size-limited caches
+    long_seqs = []
+    base = [o for o in ops_r if not o.startswith("cli:sheet/premium")]
+    for r in range(0, len(base), max(1, len(base) // 8)):
+        rot_ops = base[r:] + base[:r]
+        long_seqs.append(rot_ops + rot_ops)
+    long_seqs.append(list(reversed(base)) + base)
+    rep_ops = ["mr:T1/B1/m1", "mr:far/m1/vr", "mr:bw/m2", "P.mr:m1", "bulk:T1B1,T3B2", "cli:sheet", "new:slash/B1", "mr:78/dark/m1", "ir:T1/B1", "mr:T3/B1/m0"]
+    probes = ["mr:T1/B1/m1/vr", "mr:far/m1", "mr:bw/m2/vr", "ir:slash/B2"]
+    for o in rep_ops:
+        for kk in (3, 8, 17):
+            for pr in probes:
+                long_seqs.append([o] * kk + [pr, o])
+    seqs += long_seqs
     # longest first, interleaved so chunks are balanced
     seqs.sort(key=len, reverse=True)
     csize = 24
-    jobs = [(seqs[i::max(1, len(seqs) // csize)], refs) for i in range(max(1, len(seqs) // csize))]
+    nj = max(16, len(seqs) // csize)
+    jobs = [(seqs[i::nj], refs) for i in range(nj)]
     n = steps = 0
     changed = set()
     for cnt, st, vs, ch in ctx.pmap(chunk_history, jobs):
@@ -540,7 +557,8 @@ def run(ctx):
         changed |= set(ch)
         ctx.add_violations(vs)
     ctx.sub("operation_histories", states=n, transitions=steps, evaluations=steps, traces=n, distinct_nontrivial=n - len(ops), exhaustive=True,
-            depth=depth, alphabet=len(ops), module_state_changed_by_some_operation=sorted(changed)[:40])
+            depth=depth, alphabet=len(ops), long_histories=len(long_seqs), longest_history=max(len(x) for x in long_seqs),
+            module_state_changed_by_some_operation=sorted(changed)[:40])
     ctx.sample({"subcheck": "history", "ops": ["mr:T2/B1/m0/vr", "P.mr:m1", "P.mr:m1"]})
 
     # ---- (3) schedules ---------------------------------------------------------------------------------------
